@@ -353,7 +353,7 @@ func genHistory(r *vrand.R, in *In) {
 		in.Batches = append(in.Batches, ops)
 		in.Merge = append(in.Merge, r.Chance(1, 4))
 	}
-	in.Disk = r.Chance(1, 4)
+	in.Disk = r.Chance(1, 6)
 	in.Opts = r.Intn(4)
 	in.Reopen = in.Disk && r.Chance(1, 3)
 	in.SortID = r.Chance(1, 4)
@@ -685,6 +685,10 @@ var classOf = map[string]string{
 }
 
 func exec(in In) vh.Result {
+	if os.Getenv("C20_TIMING") != "" {
+		t0 := time.Now()
+		defer func() { fmt.Fprintf(os.Stderr, "timing disk=%v opts=%d reopen=%v batches=%d %v\n", in.Disk, in.Opts, in.Reopen, len(in.Batches), time.Since(t0)) }()
+	}
 	var res vh.Result
 	var dirs []string
 	defer func() {
